@@ -147,7 +147,7 @@ def cases(tier, seed):
         for size in (None, 1, 2, 3, 5):
             out.append({"kind": "immut", "cls": "immut:" + lay, "layout": lay, "size": size, "seed": seed})
     # structured inputs (decoupled leading entry, diagonal, zero, triangular, integer) drive the rarely taken paths of the routines
-    for structure in ("decoupled", "diagonal", "zero", "triangular", "int"):
+    for structure in ("decoupled", "diagonal", "zero", "triangular", "int", "tiny_scale", "huge_scale"):
         for size in (None, 2, 5, 6):
             for lay in ("C", "readonly"):
                 out.append({"kind": "immut", "cls": "immut:structured", "layout": lay, "size": size, "structure": structure, "seed": seed})
@@ -336,7 +336,8 @@ def _immut(spec, ctx, R):
     for name, rec in got.items():
         b = base[name]
         if b["error"] is not None:
-            # the call is not defined for this size variant (e.g. a fixed truncation rank): nothing to judge
+            # the call is not defined for this size / scale variant (e.g. a fixed truncation rank, overflow): only the arguments are judged
+            ctx.check("immut:args_unchanged", not rec["args_changed"], site=name, tags=[lay, st, "call_raised"])
             continue
         ctx.distinct(name, lay, size, structure)
         ctx.check("immut:args_unchanged", not rec["args_changed"], site=name, tags=[lay, st])
